@@ -737,6 +737,12 @@ func c19TransformCase(ctx *Ctx, v cty.Value, wlog []c19Visit) {
 		if hasSetStep(v, tgt.p) {
 			continue
 		}
+		if !repl.Type().Equals(tgt.v.Type()) {
+			// a dynamically typed member: the generator instantiated the placeholder,
+			// so this is not "a value of the member's own type" (the list/map/set
+			// around it may legitimately change its element type)
+			continue
+		}
 		glit := lit + " ; " + rule.lit()
 		if !strings.HasPrefix(outcome, "ok ") {
 			// replacing a member by a value of the same type must not fail … unless the
